@@ -25,16 +25,20 @@
           - C03_repair_step_tree: one splice, the detour running over new chips and/or through nodes of the
             orphaned subtree (re-parenting, parent searched among all nodes as since c75fe85),
           - C03_avoid_dead_links_tree: their composition over broken_links in any order.
+   * U  C03_route_nets_independent / C03_route_nets_valid: the loop over the nets of one call; C03_run_history_valid:
+        a re-used Machine object with in-place edits of its fault sets; T C03_route_shape.
    * U  C03_route_valid_no_repair / C03_route_valid_fault_free: the branch without repair, kept as corollaries.
    * R  C03_repair_duplicate_child_orig_refuted: the repair step of the code as found (before c75fe85)
         attached a chip twice; witness replayed on the real code.
    The validators stay in the check: V certifies every real output of route() independently of the model.
    The model (Model/Route.v) is compared with rig on every run: exact tree equality for ner_net and for the
    final tree of route(), with the random module scripted. *)
+From Coq Require Import String.
 From Coq Require Import ZArith List Bool.
 Require Import Rig.Model.Base Rig.Model.Route Rig.Spec.Route Rig.Proofs.Route Rig.Proofs.RouteMain
         Rig.Proofs.RouteFull Rig.Proofs.RouteCopy Rig.Proofs.RouteRepair Rig.Proofs.RouteAstar
-        Rig.Proofs.RouteSever Rig.Proofs.RouteSplice Rig.Proofs.RouteAvoid Rig.Proofs.RouteValid.
+        Rig.Proofs.RouteSever Rig.Proofs.RouteSplice Rig.Proofs.RouteAvoid Rig.Proofs.RouteValid
+        Rig.Model.RouteMulti Rig.Generated.GenRouteShape Rig.Proofs.RouteMulti.
 Import ListNotations.
 Open Scope Z_scope.
 
@@ -201,6 +205,56 @@ Theorem C03_route_connected_succeeds :
               ValidTree m src (sink_reqs sinks pl cons allocs) t.
 Proof. exact route_connected_succeeds. Qed.
 
+(* U: the loop of route() over the nets of one call (Model/RouteMulti.v; its shape is re-extracted from the
+   source on every run, C03_route_shape).  Independence: the i-th tree is what route_net returns for that net
+   alone, started at a stream position that depends on the earlier nets' endpoints only. *)
+Theorem C03_route_nets_independent :
+  forall m nets pl cons allocs radius s ts,
+    route_nets m nets pl cons allocs radius s = Ok ts ->
+    Forall2 (fun ns t => route_net m (n_source (fst ns)) (n_sinks (fst ns)) (n_dests (fst ns)) pl cons allocs
+                                   radius (snd ns) (n_order (fst ns)) = Ok t)
+            (combine nets (net_starts m nets pl radius s)) ts.
+Proof. exact route_nets_independent. Qed.
+
+(* U: every tree of a call with any number of nets (shared vertices, repeated nets, twin nets) satisfies the
+   property's sentence for ITS OWN net, or the call fails with the documented error on a disconnected machine. *)
+Theorem C03_route_nets_valid :
+  forall m nets pl cons allocs radius s,
+    1 <= rm_w m -> 1 <= rm_h m -> Forall (net_ok m pl allocs radius) nets -> stream_ok s ->
+    (exists ts, route_nets m nets pl cons allocs radius s = Ok ts /\
+                Forall2 (tree_valid_for m pl cons allocs) nets ts) \/
+    (route_nets m nets pl cons allocs radius s = Failed 0 /\ ~ Connected m).
+Proof. exact route_nets_valid. Qed.
+
+(* U: a Machine object re-used for several calls with in-place edits of dead_links / dead_chips in between: every
+   call is valid with respect to the fault sets as they are AT THAT CALL (mk = the edits so far applied to m). *)
+Theorem C03_run_history_valid :
+  forall ops m source sinks dests pl cons allocs radius mk r src,
+    In (mk, r) (run_history m ops source sinks dests pl cons allocs radius) ->
+    1 <= rm_w mk -> 1 <= rm_h mk ->
+    zassoc source pl = Some src -> working_chip mk src -> Forall (working_chip mk) dests ->
+    (forall v, In v sinks -> exists c, zassoc v pl = Some c /\ In c dests) ->
+    (forall v a b, In v sinks -> zassoc v allocs = Some (a, b) -> 0 <= a /\ b <= 18) ->
+    (forall s o, In (MRoute s o) ops -> stream_ok s /\ order_ok_route mk src dests radius s o) ->
+    (exists t, r = Ok t /\ ValidTree mk src (sink_reqs sinks pl cons allocs) t) \/
+    (r = Failed 0 /\ ~ Connected mk).
+Proof. exact run_history_valid. Qed.
+
+Theorem C03_run_history_entries :
+  forall ops m source sinks dests pl cons allocs radius mk r,
+    In (mk, r) (run_history m ops source sinks dests pl cons allocs radius) ->
+    exists pre s o post, ops = pre ++ MRoute s o :: post /\ mk = fold_left apply_mop pre m /\
+                         r = route_net mk source sinks dests pl cons allocs radius s o.
+Proof. exact run_history_entries. Qed.
+
+(* T: what the two models above assume of the source text, re-extracted on every run (tools/dump_c03.py, fail
+   closed): the loop over the nets has its four statements and writes no name bound before it except `routes`;
+   Machine has no attribute hooks and no attribute besides its six. *)
+Theorem C03_route_shape :
+  route_loop_statements = 4 /\ route_loop_carried = ["routes"%string] /\ machine_attribute_hooks = [] /\
+  machine_attributes = ["chip_resource_exceptions"; "chip_resources"; "dead_chips"; "dead_links"; "height"; "width"]%string.
+Proof. exact route_shape. Qed.
+
 (* R: the repair of the code as found (model avoid_dead_links_orig) on a connected 3 x 4 mesh with five
    further dead links: the tree of ner_net is repaired into a tree that lists chip (1, 0) twice; the
    repaired code returns a tree the validator accepts. *)
@@ -246,6 +300,14 @@ Example C03_route_repair_instance :
                  (RNode (0, 3) [(Some 5, RNode (0, 2) [(Some 5, RNode (0, 1) [(Some 5, RNode (0, 0)
                     [(Some 0, RNode (1, 0) [(Some 0, RNode (2, 0) [])])])])])]) = true.
 Proof. exact ex_route_repair. Qed.
+
+Example C03_route_nets_instance :
+  exists t1 t2,
+    route_nets ex_multi_machine ex_multi_nets ex_multi_pl [] [(1, (1, 2))] 20 [5; 3; 9; 1; 0; 0; 7] = Ok [t1; t2]
+    /\ check_tree ex_multi_machine (0, 0) (sink_reqs [1] ex_multi_pl [] [(1, (1, 2))]) t1 = true
+    /\ check_tree ex_multi_machine (0, 0) (sink_reqs [1; 3] ex_multi_pl [] [(1, (1, 2))]) t2 = true
+    /\ link_alive (apply_mop (perfect 3 3) (MDlAdd (0, 0) 1)) (0, 0) 1 = false.
+Proof. exact ex_route_nets. Qed.
 
 Example C03_route_failure_instance :
   route_net ex_cut_machine 0 [1] [(1, 0)] [(0, (0, 0)); (1, (1, 0))] [] [] 20 [] None = Failed 0
